@@ -101,6 +101,10 @@ func drainProtocol(r io.Reader) error {
 }
 
 func runC19(c *fw.Case) {
+	if desyncBin() != "" && c.ChanceAdded(1, procRate(12), "c19.proc") {
+		runC19Proc(c)
+		return
+	}
 	kind := c.Draw(5, "c19.kind") // 0 index->IndexFromReader, 1 index via HTTP PUT, 2 catar->FormatDecoder, 3 catar->ArchiveDecoder, 4 protocol
 	var valid []byte
 	var tgt c19Target
